@@ -147,6 +147,7 @@ type realResult struct {
 	PanicVal string
 	Stack    string
 	NilAST   bool
+	Raw      interface{} // the value the parser returned (C11 re-reads it after later parses)
 }
 
 func realParse(f func() (interface{}, error)) realResult {
@@ -163,6 +164,7 @@ func realParse(f func() (interface{}, error)) realResult {
 		rr.NilAST = true
 	} else {
 		rr.AST = gram.FromReal(reflect.ValueOf(v))
+		rr.Raw = v
 	}
 	return rr
 }
